@@ -5,6 +5,10 @@ def build_units(conn):
     if conn["proto"] == "udp":
         dgrams = [bytes.fromhex(h) for _, h in conn["dgrams"]]
         units = []
+        if conn.get("src_per_dgram"):
+            # a burst: all datagrams leave back to back
+            return [{"c": [{"dg": i} for i in range(len(dgrams))], "s": []}], {
+                "dgrams": dgrams, "keylog": [], "keys": {"client_random": ""}, "truth": {"expected": [], "noise": True}}
         for i, (d, _) in enumerate(conn["dgrams"]):
             fl = {"c": [], "s": []}
             fl[d].append({"dg": i})
